@@ -136,8 +136,23 @@ func matchPredTerm(t Term, p *predicate.Predicate, a Assign, null func(string) b
 		if string(p.ID()) != t.ID || p.Type() != predicate.Temporal {
 			return false
 		}
+		lo, hi := t.Lo, t.Hi
+		if t.LoName != "" {
+			v, ok := a[t.LoName]
+			if !ok || v.Kind != 'T' {
+				return false
+			}
+			lo = &v.T
+		}
+		if t.HiName != "" {
+			v, ok := a[t.HiName]
+			if !ok || v.Kind != 'T' {
+				return false
+			}
+			hi = &v.T
+		}
 		ta, _ := p.TimeAnchor()
-		if !within(*ta, t.Lo, t.Hi) {
+		if !within(*ta, lo, hi) {
 			return false
 		}
 	}
